@@ -111,20 +111,19 @@ impl Texture {
 
         match header.format {
             TextureFormat::B4G4R4A4 => {
-                if src.len() < header.width as usize * header.height as usize * 2 {
+                // every slice counts, for the payload check, the output and the loop alike
+                let pixels =
+                    header.width as usize * header.height as usize * header.depth as usize;
+                if src.len() < pixels * 2 {
                     return None;
                 }
 
-                dst =
-                    vec![
-                        0u8;
-                        header.width as usize * header.height as usize * header.depth as usize * 4
-                    ];
+                dst = vec![0u8; pixels * 4];
 
                 let mut offset = 0;
                 let mut dst_offset = 0;
 
-                for _ in 0..header.width as usize * header.height as usize {
+                for _ in 0..pixels {
                     let short: u16 = ((src[offset] as u16) << 8) | src[offset + 1] as u16;
 
                     let src_b = short & 0xF;
